@@ -295,6 +295,21 @@ func runC05(c *Ctx) {
 	}
 	c.Info["panic_sites_on_decode_paths"] = nPanic
 
+	// (3b) work-list loops on decode paths keep their no-progress bail-out alive
+	nLoopFns := 0
+	for _, fn := range fns {
+		bad := stickyBailouts(fn)
+		if len(bad) == 0 {
+			continue
+		}
+		nLoopFns++
+		for _, in := range bad {
+			c.Check("bailout-alive", "no-progress-exit@"+shortName(fn), in, false,
+				"this loop's only no-progress exit tests a flag that is carried across iterations and only ever set to true: after the first productive pass the exit can never fire, so an input whose remaining items cannot be processed (e.g. a redirect cycle) makes the decoder spin forever")
+		}
+	}
+	c.CheckAt("bailout-alive", "scanned", "decode-reachable functions", true, "")
+
 	// (4) who drives the frame decoder
 	dec := c.P.Func(pkgCodec + ":(*Decoder).Decode")
 	if dec != nil {
